@@ -196,6 +196,13 @@ static void _release_held(HeldWindows *held)
 
 static TickitWindow *_handle_mouse_at(TickitWindow *win, TickitMouseEventInfo *info)
 {
+  /* Hidden windows and everything below them receive no input; _handle_mouse()
+   * looks only at the window's own flag, the recursion from the root sees to the
+   * ancestors - which a direct delivery passes by */
+  for(TickitWindow *w = win->parent; w; w = w->parent)
+    if(!w->is_visible)
+      return NULL;
+
   HeldWindows held;
   if(!_hold_ancestors(win, &held))
     return NULL;
